@@ -126,6 +126,7 @@ func LoadProgram(patterns ...string) (*Program, error) {
 			}
 		}
 	}
+	theProgram = P
 	// contract files
 	for _, p := range pkgs {
 		if !strings.HasPrefix(p.PkgPath, modPath) {
